@@ -52,6 +52,12 @@ def world():
 
     def fn():
         return None
+
+    class LieStr(object):
+        """an object that only SAYS it is a str (as unittest.mock.Mock(spec=str) does)"""
+        __class__ = property(lambda self: str)
+    import weakref
+    _keep = A()
     toks = {
         "none": None, "i_m1": -1, "i0": 0, "i1": 1, "i2": 2, "i5": 5, "i10": 10, "ihuge": 10 ** 400,
         "bT": True, "bF": False, "isub3": IntSub(3), "npi3": np.int64(3), "npbT": np.bool_(True),
@@ -62,8 +68,9 @@ def world():
         "s_": "", "s_a": "a", "s_aaa": "aaa", "s_abc": "abc", "s_5": "5", "s_2h": "2.5", "s_10": "10", "s_9": "9", "ssub_a": StrSub("a"),
         "by_a": b"a", "t_": (), "t_1a": (1, "a"), "t_2h5": (2.5, "5"), "t_1a1": (1, "a", 1), "t_12": (1, 2), "t_s10s9": ("10", "9"), "t_s9s10": ("9", "10"), "l_1a": [1, "a"],
         "fn": fn, "cA": A, "cB": B, "cC": C, "oA": A(), "oB": B(), "oC": C(), "mod": math, "obj": object(),
+        "pxA": weakref.proxy(_keep), "lieS": LieStr(),
     }
-    _state.update(np=np, A=A, B=B, C=C, toks=toks, IntSub=IntSub, FloatSub=FloatSub, StrSub=StrSub, IdxObj=IdxObj,
+    _state.update(_keep=_keep, LieStr=LieStr, np=np, A=A, B=B, C=C, toks=toks, IntSub=IntSub, FloatSub=FloatSub, StrSub=StrSub, IdxObj=IdxObj,
                   IdxRaise=IdxRaise, FltObj=FltObj, FltRaise=FltRaise, CplxObj=CplxObj, classes={})
     return _state
 
@@ -140,6 +147,10 @@ def proj(x, loose_str=False, strlen=False):
         r = ("class", NoNum, {w["A"]: "A", w["B"]: "B", w["C"]: "C"}.get(x, "?"))
     elif t in (w["A"], w["B"], w["C"]):
         r = ("inst", NoNum, t.__name__)
+    elif t is w["LieStr"]:
+        r = ("liar", NoNum, "str")
+    elif t.__name__ in ("weakproxy", "ProxyType"):
+        r = ("proxy", NoNum, "A")
     elif t is types.ModuleType:
         r = ("module", NoNum, "")
     elif t is object:
@@ -173,6 +184,10 @@ def trait_of(cfg):
         if cfg.get("nm"):
             return T.Instance("harness.drivers.valclasses." + cfg["k"], allow_none=cfg["an"])
         return T.Instance(w[cfg["k"]], allow_none=cfg["an"])
+    if t == "InstAd":
+        if cfg["k"] == "B" and cfg["mn"] == 1:
+            return T.Supports(w["B"], allow_none=cfg["an"])              # (Supports = Instance with adapt="yes")
+        return T.Instance(w[cfg["k"]], adapt={1: "yes", 2: "default"}[cfg["mn"]], allow_none=cfg["an"])
     if t == "String":
         import sys
         return T.String(minlen=cfg["mn"], maxlen=sys.maxsize if cfg["mx"] == NoNum else cfg["mx"],
@@ -558,6 +573,9 @@ def classify(pid, rec, clauses):
         return "%s:F6:float-Range-accepts-NaN" % pid
     if involves(cfg, tok, lambda c, t: c["t"] == "Callable" and not c["an"] and t == "none"):
         return "%s:F10:Callable-allow_none-False-python-validate-accepts-None" % pid
+    if pid == "C03" and tok == "lieS" and involves(cfg, tok, lambda c, t: c["fast"] and t == "lieS" and (
+            c["t"] == "Str" or (c["t"] == "TCoerce" and c["k"] == "str"))) and all(c.startswith(("C03-", "pypath-")) for c in clauses):
+        return "C03:F28:python-validate-trusts-__class__-fast-path-checks-the-real-type"
     return "%s:judge:%s:%s" % (pid, cfg["t"], "+".join(clauses))
 
 
